@@ -2,7 +2,7 @@
 from props.proxy_common import *
 
 ID = "C01"
-COQ_TARGETS = ["Run/Run_Proxy.vo"]
+COQ_TARGETS = ["Run/Run_Proxy.vo", "Run/Run_ProxyDyn.vo", "ProxyP/DynamicP.vo"]
 META = {
     "text": "Composition (Compose/*.v): C01_settled_from_convergence and C01_end_to_end derive the proxy model's [settled] - and hence 'served iff some node's manager holds an upstream for E, else 502' - from the lower layers: managers' registries (C05 invariant), converged gossip views (C03_converged_views + id closure), watcher fold (C14) and syncer table (C04). Theorems (Properties/C01.v) over the Gallina cluster model of piko's proxy data path (EndpointIDFromRequest incl. net.SplitHostPort/net.ParseIP, gin route "
             "choice, LoadBalancedManager.Select, State.LookupEndpoint, the per-hop request transformation of ServeHTTPWithUpstream+ReverseProxy incl. keepControlHeaders, "
